@@ -4,6 +4,8 @@ from __future__ import annotations
 import glob
 import io
 import os
+import pathlib
+import tempfile
 import re
 import traceback
 from typing import Any, Dict, Optional
@@ -105,6 +107,9 @@ def classify(err: Optional[str], d: Optional[dict], text1: str = '', text2: str 
     return 'text-not-fixed-point'
 
 
+_FN = [0]
+
+
 def roundtrip(run, vmf, opts: Dict[str, bool], engine: str, case: Any, features: Dict[str, int]) -> Optional[str]:
     from srctools.vmf import VMF
     from srctools.keyvalues import Keyvalues
@@ -147,6 +152,33 @@ def roundtrip(run, vmf, opts: Dict[str, bool], engine: str, case: Any, features:
     if d is not None:
         run.violation(f're-parsed map differs at {d["path"]}: want {d["want"]!r} got {d["got"]!r}',
                       witness={'diff': d, 'opts': opts}, case=case, engine=engine, key=classify(None, d))
+    # the same text handed to VMF.parse as a file name (str and os.PathLike) instead of a parsed tree - the library then
+    # reads the file itself, as cp1251; only done for texts that encoding can carry
+    try:
+        raw = text1.encode('cp1251')
+    except UnicodeEncodeError:
+        raw = None
+    if raw is not None and b'\r' not in raw:
+        fd, path = tempfile.mkstemp(prefix='rv-c06-', suffix='.vmf')
+        try:
+            with os.fdopen(fd, 'wb') as f:
+                f.write(raw)
+            _FN[0] += 1
+            arg: Any = pathlib.Path(path) if _FN[0] % 2 else path
+            vmf3 = VMF.parse(arg, preserve_ids=preserve)
+            from_file = gen_vmf.describe_map(vmf3, minimal)
+            normalise_multicolors(from_file, True)
+            run.count('parses_from_file_name')
+            d3 = gen_vmf.diff(after, from_file)
+            if d3 is not None:
+                run.violation(f'VMF.parse(file name) differs from VMF.parse(tree of the same text) at {d3["path"]}: {d3["want"]!r} vs {d3["got"]!r}',
+                              witness={'diff': d3, 'opts': opts, 'given_as': type(arg).__name__}, case=case, engine=engine,
+                              key='parse-from-filename-differs')
+        except Exception as exc:
+            run.violation(f'VMF.parse(file name) raised {type(exc).__name__}: {exc}', witness=traceback.format_exc()[-1200:], case=case,
+                          engine=engine, key='parse-from-filename-differs')
+        finally:
+            os.unlink(path)
     try:
         text2 = vmf2.export(inc_version=False, minimal=minimal, disp_multiblend=multiblend)
     except Exception as exc:
@@ -217,6 +249,8 @@ def main(run, shard=(0, 1)) -> None:
             hist[k] = hist.get(k, 0) + 1
         case = {'id': i, 'opts': opts}
         text = roundtrip(run, vmf, opts, 'generated', case, features)
+        if text is not None and i % 5 == 0:
+            dup_ids_case(run, text, i)
         nontrivial = bool(features.get('brush') or features.get('output') or features.get('fixup'))
         run.case(text if text is not None else ['noexport', i], nontrivial,
                  sample={'id': i, 'opts': opts, 'features': features, 'text_bytes': len(text or '')} if i < 3 else None, tag='generated')
@@ -241,12 +275,43 @@ def main(run, shard=(0, 1)) -> None:
             run.note_inconclusive(f'could not load seed document {path}: {exc!r}')
     probe.report(run)
     probe.check_reached(run)
-    run.require('exports', 'parses', 'file_form_exports')
+    run.require('exports', 'parses', 'file_form_exports', 'parses_from_file_name', 'colliding_id_documents')
+
+
+def dup_ids_case(run, text: str, i: int) -> None:
+    """A file whose brush, face and entity IDs collide (as third-party tools write them), opened with preserve_ids=True: "IDs
+    preserved when asked" - the text must then be a fixed point with exactly those IDs, however the file reaches the parser."""
+    from srctools.vmf import VMF
+    from srctools.keyvalues import Keyvalues
+    tree = Keyvalues.parse(text)
+    n = 0
+    for blk in tree.iter_tree(blocks=True):
+        if blk.has_children() and blk.name in ('solid', 'side', 'entity'):
+            for child in blk:
+                if child.name == 'id' and not child.has_children() and child.value.isdigit():
+                    child.value = str(int(child.value) % 3 + 1)
+                    n += 1
+    if n < 2:
+        return
+    try:
+        vmf = VMF.parse(tree, preserve_ids=True)
+    except Exception as exc:
+        run.violation(f'VMF.parse(preserve_ids=True) of a file with colliding IDs raised {type(exc).__name__}: {exc}',
+                      case={'id': i, 'dup_ids': True}, engine='dup-ids', key='parse-rejects-colliding-ids')
+        return
+    run.count('colliding_id_documents')
+    roundtrip(run, vmf, {'minimal': False, 'disp_multiblend': True, 'preserve_ids': True}, 'dup-ids', {'id': i, 'dup_ids': True}, {})
 
 
 def replay(run, data) -> None:
     case = data['case']
-    if 'file' in case:
+    if case.get('dup_ids'):
+        rng = sub_rng(run.seed, 'map', case['id'])
+        vmf, features = gen_vmf.gen_map(rng, size=rng.choice(('small', 'normal', 'normal', 'big')))
+        opts = {'minimal': rng.random() < 0.25, 'disp_multiblend': rng.random() < 0.8, 'preserve_ids': rng.random() < 0.4}
+        text = vmf.export(inc_version=False, minimal=opts['minimal'], disp_multiblend=opts['disp_multiblend'])
+        dup_ids_case(run, text, case['id'])
+    elif 'file' in case:
         from srctools.vmf import VMF
         from srctools.keyvalues import Keyvalues
         with open(os.path.join(bootstrap.REPO, case['file']), encoding='cp1251') as f:
